@@ -1172,6 +1172,108 @@ def check_C09(run):
                                're-encode B) on boundary values of A; distinct = distinct fungible pairs' % len(tids))
 
 
+# ===========================================================================
+# C14 RPC
+
+def _b(sname):
+    return [ord(c) for c in sname]
+
+
+def rpc_ifaces():
+    i32 = {"k": "int", "w": 4, "s": True}
+    u8 = {"k": "int", "w": 1, "s": False}
+    u16 = {"k": "int", "w": 2, "s": False}
+    s8 = {"k": "str", "cw": 1}
+    vu8 = {"k": "vec", "e": u8}
+    point = {"k": "struct", "m": [i32, s8]}
+    ios = {"k": "var", "m": [i32, s8]}
+    diverr = {"k": "enum", "w": 1, "s": False}
+    def tup(*m):
+        return {"k": "tup", "m": list(m)}
+    def meth(label, args, ret, bound=True, calls=None, sel=None):
+        d = {"name": _b(label), "label": label, "args": args, "ret": ret, "bound": bound, "calls": calls or [label]}
+        if sel is not None:
+            d["sel"] = sel
+        return d
+    return {
+        "calc": {"name": _b("io.verif.Calc"), "width": 8, "methods": [
+            meth("Sum", tup(i32, i32), i32), meth("Concat", tup(s8, s8), s8),
+            meth("Echo", tup(vu8), vu8, calls=["Echo", "EchoArr"]),
+            meth("Stats", tup(point, {"k": "opt", "e": i32}), point), meth("Choose", tup(ios), ios),
+            meth("Div", tup(i32, i32), {"k": "res", "err": diverr, "e": i32}),
+            meth("Unbound", tup(i32), i32, bound=False)]},
+        "small": {"name": _b("io.verif.Small"), "width": 4, "methods": [
+            meth("Inc", tup(u8), u8), meth("Name", tup(), s8),
+            meth("Fixed", tup(u16, u16), u16, sel=word(42, 4)), meth("Other", tup(u8), u8, bound=False)]},
+    }
+
+
+def key_rpc(ev, why, cmd=None):
+    if ev.get("e") != "RPC":
+        return abnormal_key('C14', ev, why, cmd)
+    return 'C14|RPC|%s|%s' % (ev.get("iface"), ','.join(why)), 'call sequence on interface %s violates: %s (command %s)' % (
+        ev.get("iface"), ', '.join(why), ev.get("idx"))
+
+
+def check_C14(run):
+    exe, types_path = vf.get_exe(run, 'plain')
+    thorough = run.tier == 'thorough'
+    rng = random.Random(run.seed)
+    fut = start_model_check(run, 'MC_Rpc', 'MC_Rpc.cfg', workers=4)
+    ifaces = rpc_ifaces()
+    ipath = os.path.join(run.work, 'ifaces.json')
+    with open(ipath, 'w') as f:
+        json.dump(ifaces, f)
+    gen = vals.Gen(seed=run.seed, nrandom=4 if thorough else 1)
+    cmds = []
+    for iname, I in ifaces.items():
+        argvals = {}
+        for m in I["methods"]:
+            for cn in m["calls"]:
+                vs = gen.values(m["args"])
+                if cn == "EchoArr":
+                    vs = [{"m": [{"n": [[(7 * i + j) % 256] for j in range(3)]}]} for i in range(4)]
+                argvals[cn] = vs
+        names = list(argvals)
+        # (1) every method with every generated argument tuple, in sequences of 1..4 calls on one connection
+        pool = [(cn, v) for cn in names for v in argvals[cn]]
+        rng.shuffle(pool)
+        i = 0
+        while i < len(pool):
+            ln = 1 + (i % 4)
+            cmds.append({"c": "rpc", "iface": iname, "calls": [{"m": cn, "args": v} for cn, v in pool[i:i + ln]]})
+            i += ln
+        # (2) truncations and single-byte corruptions of requests, followed by a good call on the same connection
+        for cn in names:
+            for v in argvals[cn][:3 if thorough else 2]:
+                good = {"m": names[0], "args": argvals[names[0]][0]}
+                for k in range(0, 26 if thorough else 14):
+                    cmds.append({"c": "rpc", "iface": iname, "calls": [{"m": cn, "args": v, "mut": [{"op": "trunc", "k": k}]}, good]})
+                for pos in range(0, 14):
+                    for hb in ((0x00, 0x7f, 0x80, 0x83, 0xba, 0xbd, 0xff) if thorough or pos < 10 else (0xff,)):
+                        cmds.append({"c": "rpc", "iface": iname,
+                                     "calls": [{"m": cn, "args": v, "mut": [{"op": "set", "at": pos, "val": hb}]}, good]})
+                # two requests delivered back to back: the dispatcher must consume exactly its own
+                cmds.append({"c": "rpc", "iface": iname, "calls": [{"m": cn, "args": v, "mut": [{"op": "append", "b": [1, 2, 3]}]}]})
+        # (3) raw requests: arbitrary selectors (unbound, wrong class, truncated)
+        for _ in range(60 if thorough else 20):
+            sel = rng.choice([[0], [42], [0x83] + [rng.randrange(256) for _ in range(8)], [0x82] + [rng.randrange(256) for _ in range(4)],
+                              [0x84, 1], [0x81, 42, 0], [0xba], [0x83, 1, 2]])
+            cmds.append({"c": "rpc", "iface": iname, "calls": [{"m": "Raw", "raw": sel + [0xba, 2, 1, 2]}]})
+    cmds = with_resets(cmds, 40)
+    run.samples = [c for c in cmds if c.get("c") == "rpc"][:3]
+    run.distinct = set(vf.digest(c) for c in cmds)
+    trace = vf.exec_commands(run, exe, cmds, 'c14')
+    rejected = vf.tlc_validate(run, 'TrRpc', 'TrCodec.cfg', trace, {"PROP": "C14", "IFACES": ipath})
+    add_rejections(run, rejected, key_rpc, index_cmds(cmds))
+    fut.result()
+    return vf.finish(run, rule='two interfaces (64-bit and 32-bit selectors, NOP_METHOD and NOP_METHOD_SEL, function/lambda and '
+                               'method bindings, partial bindings, scalars/strings/containers/structures/variants/Result returns, a '
+                               'fungible argument substitution) x call sequences of 1-4 calls with boundary arguments x every '
+                               'truncation and single-byte corruption of a request x raw requests with unbound/ill-formed '
+                               'selectors, end to end over a loopback transport; distinct = distinct call sequences')
+
+
 def replay(run, path):
     with open(path) as f:
         rp = json.load(f)
